@@ -65,6 +65,30 @@ class TracingFileIO(io.FileIO):
         return super().truncate(size)
 
 
+class TracingReadIO(io.FileIO):
+    """Raw reader whose every read is a choice point {ok, EIO}."""
+
+    def __init__(self, shim, label, file, mode, closefd=True, opener=None):
+        super().__init__(file, mode, closefd=closefd, opener=opener)
+        self._shim = shim
+        self._label = label
+
+    def readinto(self, b):
+        if self._shim.active:
+            self._shim.op("read", self._label, ["EIO"])
+        return super().readinto(b)
+
+    def read(self, size=-1):
+        if self._shim.active:
+            self._shim.op("read", self._label, ["EIO"])
+        return super().read(size)
+
+    def readall(self):
+        if self._shim.active:
+            self._shim.op("read", self._label, ["EIO"])
+        return super().readall()
+
+
 class _IoProxy:
     def __init__(self, shim):
         self._shim = shim
@@ -89,7 +113,7 @@ class _Names:
 
 class FsShim:
     def __init__(self, run, sandbox, focus=None, write_ks="sample",
-                 fault_reads=True):
+                 fault_reads=True, read_faults=False, crashes=True):
         self.run = run
         self.sandbox = os.path.realpath(sandbox)
         self.focus = os.path.realpath(focus) if focus else None
@@ -103,6 +127,8 @@ class FsShim:
         self.fdpaths = {}
         self.write_ks = write_ks
         self.fault_reads = fault_reads
+        self.read_faults = read_faults
+        self.crashes = crashes
 
     # ---------------------------------------------------------------- utils
     def _inside(self, path):
@@ -157,11 +183,11 @@ class FsShim:
         if self.crashed:
             raise CrashSignal()
         self.log.append((kind, label))
-        alts = ["proceed", "crash"] + list(errs)
+        alts = ["proceed"] + (["crash"] if self.crashes else []) + list(errs)
         c = self.run.choose(len(alts), f"{kind}:{label}")
         if c == 0:
             return
-        if c == 1:
+        if alts[c] == "crash":
             self.crash(label, "before-" + kind)
         self.fail(label, f"{kind}:{alts[c]}", alts[c])
 
@@ -214,6 +240,13 @@ class FsShim:
         if not writing:
             if self.fault_reads and not isinstance(file, int):
                 self.op("open-r", label, ["EACCES"])
+            if self.read_faults and "b" in mode and not isinstance(file, int) \
+                    and os.path.isfile(file):
+                raw = TracingReadIO(self, label, file, "r", closefd=closefd,
+                                    opener=opener)
+                if buffering == 0:
+                    return raw
+                return io.BufferedReader(raw)
             return _real["io_open"](file, mode, buffering, encoding, errors,
                                     newline, closefd, opener)
         if not isinstance(file, int):
